@@ -47,6 +47,10 @@ COLS_E = [
     ("div", f"{C}.Count()/2", ["val", "double", []], "f", 0),
     ("cmp", f"{C}.Count() > 1", ["val", "bool", []], "b", 0),
     ("cond", f"(1 if {C}.Count() > 1 else 2)", ["val", "double", []], "f", 0),
+    # a power is computed by std::pow: floating whatever the operands are (Count() ** -1 is not an integer)
+    ("pow_int", f"{C}.Count() ** 2", ["val", "double", []], "f", 0),
+    ("pow_neg", f"{C}.Count() ** -1", ["val", "double", []], "f", 0),
+    ("v_pow", f"{C}.Select(lambda j: j.nTrk() ** 2)", ["seq", ["val", "double", []]], "f", 1),
     ("v_dbl", f"{C}.Select(lambda j: j.pt())", ["seq", ["val", "double", []]], "f", 1),
     ("v_int", f"{C}.Select(lambda j: j.nTrk())", ["seq", ["val", "int", []]], "i", 1),
     ("v_bool", f"{C}.Select(lambda j: j.isGood())", ["seq", ["val", "bool", []]], "b", 1),
@@ -72,6 +76,8 @@ COLS_J = [
     ("v_color_tt", "j.hits().Select(lambda h: j.color())", ["seq", ["val", "MyNS::Color", ["int"]]], None, 1),
     ("cmp", "j.pt() > 1", ["val", "bool", []], "b", 0),
     ("div", "j.nTrk()/2", ["val", "double", []], "f", 0),
+    ("pow_int", "j.nTrk() ** 2", ["val", "double", []], "f", 0),
+    ("pow_lit", "2 ** j.nTrk()", ["val", "double", []], "f", 0),
     ("cond", "(j.pt() if j.pt() > 1 else j.eta())", ["val", "double", []], "f", 0),
     ("v_int", "j.hits().Select(lambda h: h + 1)", ["seq", ["val", "int", []]], "i", 1),
     ("v_dbl", "j.vals().Select(lambda v: v * 2)", ["seq", ["val", "double", []]], "f", 1),
@@ -80,11 +86,11 @@ COLS_J = [
 # element type the expression has, where a method declared with a tree_type has that leaf type (written by hand,
 # independently of the model; 2-D over a tree_type method: see the comment above).
 EXPECT_TYPE = {
-    "E": {"int": "int", "div": "double", "cmp": "bool", "cond": "double", "v_dbl": "std::vector<double>", "v_int": "std::vector<int>",
+    "E": {"int": "int", "div": "double", "cmp": "bool", "cond": "double", "pow_int": "double", "pow_neg": "double", "v_pow": "std::vector<double>", "v_dbl": "std::vector<double>", "v_int": "std::vector<int>",
           "v_bool": "std::vector<bool>", "v_float": "std::vector<float>", "v_flt_tt": "std::vector<double>", "v_color_tt": "std::vector<int>",
           "v_qual_tt": "std::vector<double>", "vv_color_tt": "std::vector<std::vector<MyNS::Color>>", "vv_flt_tt": "std::vector<std::vector<float>>",
           "vv_dbl": "std::vector<std::vector<double>>", "vv_int": "std::vector<std::vector<int>>"},
-    "J": {"int": "int", "dbl": "double", "bool": "bool", "float": "float", "flt_tt": "double", "color_tt": "int", "qual_tt": "double",
+    "J": {"int": "int", "dbl": "double", "bool": "bool", "float": "float", "pow_int": "double", "pow_lit": "double", "flt_tt": "double", "color_tt": "int", "qual_tt": "double",
           "v_color_tt": "std::vector<int>", "cmp": "bool", "div": "double", "cond": "double", "v_int": "std::vector<int>", "v_dbl": "std::vector<double>"},
 }
 # malformed columns: raw collection (not iterated), nested structure, sequence of structures
